@@ -30,6 +30,8 @@ func init() {
 			{ID: "C03.R6", Min: 2, Desc: "remote send failure is reported as a dead letter", Fn: c03RemoteFailure},
 			{ID: "C03.R8", Min: 2, Desc: "no accepted message is stranded in an idle mailbox (C01.R2 release-then-recheck)", Fn: c01Release},
 			{ID: "C03.R9", Min: 1, Desc: "a path's registry entry is removed only by the termination of the actor registered there", Fn: c03RegistryOwner},
+			{ID: "C03.R11", Min: 3, Desc: "everything the supervisor paused is recorded on every path, so the resume of this or a higher level reaches it (C09.R7)", Fn: c08RecordedTargets},
+			{ID: "C03.R12", Min: 3, Desc: "a stashed message leaves the stash only through Unstash (C02.R6)", Fn: c02StashWriters},
 			{ID: "C03.R10", Min: 1, Desc: "an unregistered local path resolves to a dead-lettering mailbox, never to another actor's", Fn: c03Unregistered},
 			{ID: "C03.R7", Min: 1, Desc: "a reference caches only the mailbox of the actor registered at its path (or a dead-lettering one)", Fn: c03CacheSound},
 		},
